@@ -250,6 +250,11 @@ func solveAll(obls []*Obligation, dir string, timeout time.Duration, confirm boo
 					o.Result = &SolveResult{Status: "unsat", Solver: "syntactic"}
 					continue
 				}
+				if o.Kind == "tag" && !o.WantSat {
+					// struct-tag obligations are decided by looking at the tag: the goal is the literal false here
+					o.Result = &SolveResult{Status: "sat", Solver: "syntactic", Raw: "the struct tag in the source does not list the item"}
+					continue
+				}
 				if o.WantSat {
 					solveObligation(o, dir, 3*time.Second, false, order)
 					continue
